@@ -136,8 +136,25 @@ func checkC13(p *Prog, res *Result, tier string) {
 		}
 	}
 	scanFn := (*ssa.Function)(nil)
+	isWGWait := func(c ssa.CallInstruction) bool {
+		sc := c.Common().StaticCallee()
+		return sc != nil && sc.Name() == "Wait" && sc.Signature.Recv() != nil && isNamed(sc.Signature.Recv().Type(), "sync", "WaitGroup")
+	}
+	// the parallel scan driver: the scanner function that starts goroutines and waits for them on a WaitGroup
 	for _, f := range p.AllFuncs {
-		if f.Pkg == sp && f.Name() == "scan" && f.Signature.Recv() != nil {
+		if f.Pkg != sp || f.Synthetic != "" || f.Parent() != nil {
+			continue
+		}
+		hasGo, hasWait := false, false
+		for _, c := range callsIn(f) {
+			if _, ok := c.(*ssa.Go); ok {
+				hasGo = true
+			}
+			if isWGWait(c) {
+				hasWait = true
+			}
+		}
+		if hasGo && hasWait {
 			scanFn = f
 		}
 	}
@@ -302,12 +319,16 @@ func checkC13(p *Prog, res *Result, tier string) {
 			// merge happens after Wait, ranging over the receiver list in index order
 			var wait, merge ssa.Instruction
 			for _, c := range callsIn(scanFn) {
-				if sc := c.Common().StaticCallee(); sc != nil && sc.Name() == "Wait" && sc.Signature.Recv() != nil && isNamed(sc.Signature.Recv().Type(), "sync", "WaitGroup") {
+				if isWGWait(c) {
 					wait = c.(ssa.Instruction)
 				}
-				if c.Common().IsInvoke() && c.Common().Method == mergeM {
-					merge = c.(ssa.Instruction)
-				}
+			}
+			// the merge of the forked receivers: in the driver itself or in a helper it calls
+			for _, ch := range enumerateChains(p, scanFn, func(ins ssa.Instruction) bool {
+				c, ok := ins.(ssa.CallInstruction)
+				return ok && c.Common().IsInvoke() && c.Common().Method == mergeM
+			}, func(g *ssa.Function) bool { return g.Pkg == sp && g.Parent() == nil }, 3) {
+				merge = ch.target
 			}
 			construct = funcName(scanFn) + ": merge in partition order after all workers finished"
 			switch {
